@@ -252,7 +252,7 @@ def has_brace(s: str) -> bool:
 
 
 # ----------------------------------------------------------------------------------------------------------
-NAMES = ["a", "b", "c", "xs", "ys", "flag", "name", "item", "index", "upper", "first", "last", "é1"]
+NAMES = ["a", "b", "c", "xs", "ys", "flag", "name", "item", "index", "upper", "first", "last", "é1", "Big", "n_2"]
 FILTERS = ["upper", "lower", "trim", "title", "nofilter", "length", "json", "repr", "bang"]
 TEXTS = ["hello ", "x", "\n", " - ", "", "|", "plain", "t", "é", "a b", "#if a", ">t0", ": ", "\ud800", "\x85", "²"]
 BTEXTS = ["{ }", "}{", "{\"k\": \"", "\"}", "{", "}", "{a}", "[{", "}]"]
@@ -569,7 +569,8 @@ class C12(Prop):
                 out.append(Violation("unknown_include_marker", "an explicit marker naming the template", repr(self.marker), idx))
             if want_raise is not None:
                 if not o.startswith("raise:"):
-                    out.append(Violation("filter_error_propagates", f"raise ({want_raise})", o, idx))
+                    clause = "strict_missing_is_error" if strict and env["missing"] else "filter_error_propagates"
+                    out.append(Violation(clause, f"raise ({want_raise})", o, idx))
                 continue
             missing = env["missing"]
             if strict:
